@@ -58,6 +58,7 @@ type c02Op struct {
 	Kind    string     `json:"kind"` // hs | policy | storedel | storeput | revoke | cachedel
 	SNI     string     `json:"sni,omitempty"`
 	IssueOK bool       `json:"issue_ok,omitempty"`
+	Vanish  bool       `json:"vanish,omitempty"` // the bundle the handshake loads is deleted right after it was read
 	Policy  *c02Policy `json:"policy,omitempty"`
 	Name    string     `json:"name,omitempty"`
 	Cert    int        `json:"cert,omitempty"` // certificate id (1-based index into Certs)
@@ -100,6 +101,8 @@ type c02Env struct {
 	polBase   int // number of decision evaluations when the policy was set
 	evals     int
 	issueOK   bool
+	vanish    bool   // delete the bundle last read at the next Exists call
+	lastLoad  string // name of the bundle last read during the current handshake
 	opG       map[int]int64
 	parent    map[int64]int64 // goroutine -> goroutine that spawned it (handshake-spawned goroutines)
 	stuck     []string
@@ -155,6 +158,18 @@ func (e *c02Env) hook(op *doubles.Op) error {
 			break
 		}
 		time.Sleep(100 * time.Microsecond)
+	}
+	// the bundle vanishes between its load and the check whether it (still) exists
+	if n, ext, ok := e.nameOfKeyLocked(op.Key); ok {
+		e.mu.Lock()
+		if op.Kind == "Load" && ext == ".crt" {
+			e.lastLoad = n
+		}
+		if op.Kind == "Exists" && e.vanish && e.lastLoad != "" {
+			e.vanish = false
+			e.deleteBundle(e.lastLoad)
+		}
+		e.mu.Unlock()
 	}
 	// a missing certificate asset fails promptly: ErrNoRetry stops certmagic's retry loop
 	// (first retry after one minute), errors.Is(err, fs.ErrNotExist) still holds
@@ -394,6 +409,12 @@ type c02HsObs struct {
 	Evals    int           `json:"evals_before"`
 }
 
+func (e *c02Env) nameOfKeyLocked(key string) (string, string, bool) {
+	e.mu.Lock()
+	defer e.mu.Unlock()
+	return e.nameOfKey(key)
+}
+
 // nameOfKey: "certificates/<issuer>/<safe name>/<safe name>.ext" -> (name, ext)
 func (e *c02Env) nameOfKey(key string) (string, string, bool) {
 	parts := strings.Split(key, "/")
@@ -513,6 +534,8 @@ func (e *c02Env) handshake(op c02Op) (*c02HsObs, error) {
 	}
 	e.mu.Lock()
 	e.issueOK = op.IssueOK
+	e.vanish = op.Vanish
+	e.lastLoad = ""
 	obs.Evals = e.evals
 	e.mu.Unlock()
 	off := len(e.b.Log.Snapshot())
@@ -551,6 +574,13 @@ func (e *c02Env) handshake(op c02Op) (*c02HsObs, error) {
 	if !c02WaitQuiet() {
 		return nil, fmt.Errorf("background goroutines of the handshake for %q still alive after 30s", op.SNI)
 	}
+	// a bundle that was read but whose existence was never checked vanishes now (same final state)
+	e.mu.Lock()
+	if e.vanish && e.lastLoad != "" {
+		e.deleteBundle(e.lastLoad)
+	}
+	e.vanish = false
+	e.mu.Unlock()
 	all := e.b.Log.Snapshot()
 	obs.Gs = e.project(all[off:], r.gid)
 	switch {
@@ -707,7 +737,7 @@ func c02RunCase(w *emit.Writer, cs *c02Case, desc map[string]any) error {
 			} else {
 				body.Bool(false)
 			}
-			body.Bool(op.IssueOK)
+			body.Bool(op.IssueOK).Bool(op.Vanish)
 			c02EncEffects(body, o.Gs)
 			switch o.Res {
 			case "cert":
@@ -827,6 +857,7 @@ func c02Policies(name string) map[string]c02Policy {
 		"decision-no":    {OD: "decision", Sched: [][]string{{"other.example"}}},
 		"decision-flip":  {OD: "decision", Sched: [][]string{{name}, {}}}, // permits once, then denies
 		"decision-flip2": {OD: "decision", Sched: [][]string{{}, {name}}}, // denies once, then permits
+		"decision-first": {OD: "decision", Sched: [][]string{{"first.example"}}}, // permits only another name of a multi-SAN certificate
 		"allow-in":       {OD: "allow", Allow: []string{name, "other.example"}},
 		"allow-out":      {OD: "allow", Allow: []string{"other.example"}},
 		"allow-empty":    {OD: "allow"},
@@ -893,6 +924,26 @@ func runC02(tier string, seed int64, outdir string, replay string) error {
 		certs := append(c02Fillers(9), c02CertSpec{Names: []string{N}, Class: class, Managed: true, Stored: true})
 		if err := run(c02Single(pols["none"], 10, certs, N, true), map[string]any{"class": "od-off-almost-full", "policy": "none", "cert": class}); err != nil {
 			return err
+		}
+	}
+
+	// the bundle vanishes between the load and the maintenance check (storage-missing branch reached
+	// from the miss path; with on-demand off this was the second witness of the fixed finding)
+	for _, pn := range []string{"none", "decision-yes", "decision-no", "decision-flip", "allow-in", "allow-out"} {
+		for _, class := range []string{"valid", "due", "expired"} {
+			for _, ok := range []bool{true, false} {
+				certs := []c02CertSpec{{Names: []string{N}, Class: class, Managed: true, Stored: true}}
+				capN := 0
+				if pn == "none" {
+					capN = 10
+					certs = append(c02Fillers(9), certs...)
+				}
+				cs := c02Single(pols[pn], capN, certs, N, ok)
+				cs.Ops[0].Vanish = true
+				if err := run(cs, map[string]any{"class": "loaded-bundle-vanishes", "policy": pn, "cert": class, "issue_ok": ok}); err != nil {
+					return err
+				}
+			}
 		}
 	}
 
